@@ -478,6 +478,8 @@ def run(prop, ctx, log):
             fl = M.parse_mir(M.dump_mir(os.environ.get("VERIF_REPO", "/repo"), scratch + "/flag"))
             import runupdk
             out += runupdk.runupd_queries(fl, 6 if thorough else 3, log, native, result)   # every affected asset reloaded exactly once per pass
+            import modek
+            out += modek.mode_queries(fl, 6 if thorough else 3, log, native, result)       # Local/Static mode switch: which calls run a pass, pending set consumed
             out += c06_flag_queries(fl, 2, log)
             if thorough:
                 out += c06_flag_queries(fl, 3, log)
